@@ -648,6 +648,16 @@ func (s *ResettableKeystore) handleResetOp(op resetOp) {
 	}
 
 	if op.success {
+		// Write the active namespace marker before anything changes in memory:
+		// if it cannot be written the swap is aborted, the old slot stays active
+		// and the new one is discarded. Swapping first and only logging a failed
+		// write would tear down the slot the marker on disk still names.
+		if err := s.metaDs.Put(ctx, activeNamespaceKey, []byte{1 - s.activeNamespace}); err != nil {
+			s.logger.Errorf("keystore: aborting swap, failed to persist active namespace marker: %v", err)
+			op.success = false
+		}
+	}
+	if op.success {
 		// Swap the active datastore.
 		oldDs := s.ds
 		s.ds = s.altDs
@@ -657,13 +667,7 @@ func (s *ResettableKeystore) handleResetOp(op resetOp) {
 		// Toggle the active namespace index
 		s.activeNamespace = 1 - s.activeNamespace
 		s.logger.Infof("keystore: swapped active namespace to %d (size=%d)", s.activeNamespace, s.size)
-		// Persist the new active namespace
-		activeValue := []byte{s.activeNamespace}
 
-		// Write the active namespace marker
-		if err := s.metaDs.Put(ctx, activeNamespaceKey, activeValue); err != nil {
-			s.logger.Errorf("keystore: failed to persist active namespace marker: %v", err)
-		}
 		// Sync to ensure marker is persisted
 		if err := s.metaDs.Sync(ctx, activeNamespaceKey); err != nil {
 			s.logger.Warnf("keystore: failed to sync active namespace marker: %v", err)
